@@ -26,8 +26,8 @@ ALIAS_TAGS = ['content', 'seg_content', 'seg_sop', 'ann_content', 'ann_sop', 'ko
               'sr_sop', 'sr_value_types', 'sr_templates', 'image']
 CTOR_TAGS = ['base', 'content', 'seg_content', 'seg_sop', 'pm_content', 'pm_sop', 'sc_sop', 'sr_coding', 'sr_content', 'sr_sop',
              'sr_value_types', 'sr_templates', 'ko_content', 'ko_sop', 'ann_content', 'ann_sop', 'pr_content', 'pr_sop', 'legacy_sop',
-             'volume']
-TARGETS = ['T20vr', 'T20uid', 'T20sites', 'T20ds'] + ['T20alias_' + t for t in ALIAS_TAGS] + ['T20ctor_' + t for t in CTOR_TAGS]
+             'volume', 'coding_schemes', 'color', 'image', 'io', 'spatial', 'sr_utils', 'uid']
+TARGETS = ['T20vr', 'T20uid', 'T20sites', 'T20ds', 'T20pkg', 'T20calls'] + ['T20alias_' + t for t in ALIAS_TAGS] + ['T20ctor_' + t for t in CTOR_TAGS]
 LEAN_MODULES = ['HdVerif.Props.C20']
 MODEL_MODULES = ['HdVerif.Model.VR', 'HdVerif.Model.VRGuards', 'HdVerif.Model.Aliasing', 'HdVerif.Model.AliasTables']
 NAMESPACE = 'HdVerif.C20'
